@@ -434,9 +434,9 @@ pub fn def() -> PropertyDef {
                Non-trivial = multi-byte title, leap-day / year-boundary date, code other than und/eng",
         assumptions: &["ISO-8601 string correctness is claimed up to year 9999; beyond only termination", "malformed language codes only require a well-formed file"],
         subs: vec![
-            Box::new(PSub { name: "titles_and_isolation", quick: 3000, thorough: 100_000, strat: meta_strategy, eval: eval_meta }),
+            Box::new(PSub { name: "titles_and_isolation", quick: 8000, thorough: 250000, strat: meta_strategy, eval: eval_meta }),
             Box::new(ESub { name: "dates", run: run_dates, replay: replay_date }),
-            Box::new(PSub { name: "random_instants", quick: 5000, thorough: 200_000, strat: random_date_strategy, eval: eval_date }),
+            Box::new(PSub { name: "random_instants", quick: 20000, thorough: 600000, strat: random_date_strategy, eval: eval_date }),
             Box::new(ESub { name: "languages", run: run_langs, replay: replay_lang }),
             Box::new(ESub { name: "termination", run: run_termination, replay: replay_termination }),
         ],
